@@ -224,7 +224,9 @@ func cmdCheck(args []string) int {
 		for _, vc := range vcs {
 			reg.Functions = append(reg.Functions, vc.root)
 			for _, o := range vc.obls {
-				if !o.Cover && o.ok() {
+				// the registry tracks contract-level obligations only; safety obligations are named after
+				// source text and legitimately come and go with harmless edits
+				if !o.Cover && o.ok() && (o.Kind == "ensures" || o.Kind == "invariant" || o.Kind == "assert") {
 					reg.Obligations[oblGroup(o.Name)] = o.Solver
 				}
 			}
